@@ -11,6 +11,8 @@ package harness
 
 import (
 	"fmt"
+	"os"
+	"path/filepath"
 	"time"
 
 	packettypes "github.com/bianjieai/tibc-go/modules/tibc/core/04-packet/types"
@@ -129,6 +131,12 @@ func (g *DetGen) Run(nOps int, caseIdx int, replicas int) {
 				w.hit("C20", fmt.Sprintf("application-hash-differs-between-executions block=%d replica=%d", bi, k))
 				return
 			}
+		}
+	}
+	if dir := os.Getenv("VERIF_OUT"); dir != "" {
+		_ = os.MkdirAll(filepath.Join(dir, "detfiles"), 0o755)
+		if err := writeDetFile(filepath.Join(dir, "detfiles", fmt.Sprintf("case%d.json", caseIdx)), recorder.initOf(c0.App), snap, blocks, ref); err != nil {
+			w.hit("C20", "harness: cannot write history file: "+err.Error())
 		}
 	}
 	w.emit(fmt.Sprintf("det.replayed %d %d %d", len(blocks), nTx, replicas), "identical")
